@@ -613,10 +613,128 @@ func c12EnumAt(i int) c12Case {
 	return c12Case{N: 2, Bodies: []int{0, 10}, RespLen: []int{5, 900}, Splits: []int{9}, CutAt: i / 3, End: []string{"close", "reset", "silence"}[i%3], Follow: i % 2}
 }
 
+// ---- "silence" lane: the only bound on a request without a response timer (MaxResponseTime < 0) whose server goes
+// silent is the client's own PING liveness check. How many unanswered PINGs the client sends before it gives the
+// connection up must not depend on what the connection did earlier: the case is run twice, once as generated and once
+// with the earlier history removed (no PINGs from the server, no earlier exchanges), and the counts are compared.
+// Counts of frames, not durations: a slow machine stretches both runs but changes neither count.
+type c12PingCase struct {
+	ServerPings int `json:"server_pings"` // PINGs the server sends (and gets acknowledged) before it goes silent
+	Earlier     int `json:"earlier"`      // complete exchanges before the last request
+	IntervalMs  int `json:"interval_ms"`
+}
+
+func c12PingOnce(serverPings, earlier int, interval time.Duration) (unanswered int, resolved bool, err error, inconcl string) {
+	env, e := speer.NewEnv(http2.ClientOpts{PingInterval: interval, MaxResponseTime: -1})
+	if e != nil {
+		return 0, false, nil, "cannot set the client up: " + e.Error()
+	}
+	defer env.Close()
+	sc := env.Conn(0)
+	if sc == nil {
+		return 0, false, nil, "no connection"
+	}
+	answer := func(tag string) bool {
+		dl := time.Now().Add(5 * time.Second)
+		for time.Now().Before(dl) {
+			for _, ev := range sc.EventsCopy() {
+				if ev.Kind != "headers" {
+					continue
+				}
+				for _, f := range ev.Fields {
+					if f.Name == ":path" && peer.TagOfURI(f.Value) == tag {
+						blk := sc.EncodeBlock(nil, []peer.FieldSpec{{F: refhpack.Field{Name: ":status", Value: "200"}, R: refhpack.Rep{Kind: 0}}})
+						_ = sc.Write(peer.SplitBlock(ev.Stream, blk, nil, true, 0, false, 0, false, 0)[0])
+						return true
+					}
+				}
+			}
+			time.Sleep(200 * time.Microsecond)
+		}
+		return false
+	}
+	for i := 0; i < earlier; i++ {
+		tag := fmt.Sprintf("e%d", i)
+		call := env.Do(speer.ReqSpec{Tag: tag, Method: "GET", Path: "/" + tag})
+		if !answer(tag) {
+			return 0, false, nil, "an earlier request did not arrive"
+		}
+		select {
+		case <-call.Done:
+		case <-time.After(5 * time.Second):
+			return 0, false, nil, "an earlier exchange did not finish"
+		}
+	}
+	last := env.Do(speer.ReqSpec{Tag: "last", Method: "GET", Path: "/last"})
+	for i := 0; i < serverPings; i++ {
+		_ = sc.Write(rawframe.Append(nil, rawframe.Ping, 0, 0, []byte{1, 2, 3, 4, 5, 6, byte(i >> 8), byte(i)}))
+	}
+	// all of the server's PINGs acknowledged (the connection is healthy up to here)
+	dl := time.Now().Add(10 * time.Second)
+	for {
+		acks := 0
+		for _, ev := range sc.EventsCopy() {
+			if ev.Kind == "pingack" {
+				acks++
+			}
+		}
+		if acks >= serverPings {
+			break
+		}
+		if time.Now().After(dl) {
+			return 0, false, nil, "the client did not acknowledge the server's PINGs in time"
+		}
+		time.Sleep(200 * time.Microsecond)
+	}
+	sc.NoPingAck.Store(true)
+	mark := len(sc.EventsCopy())
+	select {
+	case <-last.Done:
+		resolved = true
+	case <-time.After(15*time.Second + 40*interval):
+	}
+	for _, ev := range sc.EventsCopy()[mark:] {
+		if ev.Kind == "ping" {
+			unanswered++
+		}
+	}
+	return unanswered, resolved, last.Err, ""
+}
+
+func c12PingRun(c c12PingCase) Outcome {
+	iv := time.Duration(c.IntervalMs) * time.Millisecond
+	base, ok0, _, inc := c12PingOnce(0, 0, iv)
+	if inc != "" {
+		return Outcome{Inconcl: inc}
+	}
+	if !ok0 {
+		return Outcome{Inconcl: "the reference run (fresh connection, silent server) did not resolve in time"}
+	}
+	got, ok1, err, inc := c12PingOnce(c.ServerPings, c.Earlier, iv)
+	if inc != "" {
+		return Outcome{Inconcl: inc}
+	}
+	desc := fmt.Sprintf("%d earlier exchanges, %d server PINGs acknowledged, then silence (PingInterval %v, no response timer)", c.Earlier, c.ServerPings, iv)
+	if ok1 && err == nil {
+		return fail("silence-success", "%s: the request succeeded although the server never answered it", desc)
+	}
+	// one PING may already be on its way when the silence begins, in either run
+	if got > base+2 || !ok1 {
+		return fail("silence-liveness", "%s: the client sent %d unanswered PINGs (resolved=%v) where a fresh connection gives up after %d: its liveness bound depends on the connection's history", desc, got, ok1, base)
+	}
+	return Outcome{NonTrivial: c.ServerPings > 0 || c.Earlier > 0, Classes: []string{fmt.Sprintf("unanswered=%d", got)}}
+}
+
+func c12PingGen(t *rapid.T) c12PingCase {
+	return c12PingCase{ServerPings: rapid.SampledFrom([]int{0, 1, 5, 40, 200}).Draw(t, "server_pings"), Earlier: rapid.IntRange(0, 3).Draw(t, "earlier"),
+		IntervalMs: rapid.SampledFrom([]int{8, 15, 30}).Draw(t, "interval")}
+}
+
 func TestC12(t *testing.T) {
 	s := newSuite(t, "C12",
 		"1..4 requests (bodies 0..70000) through RoundTrip with MaxResponseTime 250 ms to a scripted TLS server whose well-formed response stream (split header blocks, DATA chunked, shared HPACK entries) is recorded and then: delivered up to any octet (incl. inside a frame) or entirely; mutated frame-wise (duplicate, delete, swap, bit flip, lying length, type/flags/stream-id change); or extended with a scripted adversary at any frame position (RST_STREAM, GOAWAY, oversized frame, HPACK garbage, unsolicited PUSH_PROMISE, DATA on an idle stream, WINDOW_UPDATE overflow, invalid SETTINGS, unknown frame type, 300 or 700 PINGs); followed by silence, close or reset; or with the client's own writes failing from any octet, counted from the start or from the moment the server's stream is delivered (so that replies hit the failure); or with Client.Close() fired before the answers, after them, or concurrently with further RoundTrips. Oracle: every RoundTrip returns exactly once within MaxResponseTime plus a margin (a miss is reported with the client's goroutine dump); a success carries exactly the complete well-formed response an independent parser (x/net Framer + strict reference HPACK) finds on that stream in the delivered octets; nothing succeeds after Close without an answer; a follow-up batch on a fresh connection gets its own responses; after Close no loop of the client remains; the process survives (crash journal). Non-trivial = cut inside a frame, a mutation, an adversary, or Close racing requests; distinct by case hash.")
 	defer s.finish()
 	runLane(s, Lane[c12Case]{Name: "faults", Journal: true, Quick: 500, Thor: 30000, Gen: c12Gen, Run: c12Run})
+	runLane(s, Lane[c12PingCase]{Name: "silence", Quick: 24, Thor: 800, Gen: c12PingGen, Run: c12PingRun})
 	runEnum(s, EnumLane[c12Case]{Name: "cuts", Journal: true, N: 3 * c12EnumCuts, At: c12EnumAt, Run: c12Run, QuickStride: 5, ThorStride: 1})
 }
